@@ -390,6 +390,15 @@ func c08sameTypeThrows(agg *aggregate, r *rendered) {
 			compares = true
 		}
 	}
+	// a comparison of the *spelled* Go type names cannot see that `typedef E ME` makes *ME the same Go type as *E when
+	// typedefs are emitted as aliases (the default): the comparison has to be on resolved types, or the rendering has to
+	// consult the aliasing option
+	if typeOnly && compares {
+		agg.check("throws-alias-type-compiles", k)
+		if _, consulted := r.R.Choices["Features.TypedefAsTypeAlias"]; !consulted {
+			agg.fail("throws-alias-type-compiles", k, "under ["+r.R.Valuation+"]: equal exception types are recognised by comparing the spelled Go type names of the throws fields, and the aliasing of typedefs is never consulted: `typedef E ME … throws (1: E a, 2: ME b)` yields `case *E:` and `case *ME:` with `type ME = E` — duplicate case in type switch, the generated package does not compile")
+		}
+	}
 	if typeOnly && !compares {
 		agg.fail("throws-same-type-compiles", k, "under ["+r.R.Valuation+"]: the processor dispatches a handler error with a type switch that has one case per throws field, labelled with the field's type only ("+strings.Join(labels, ", ")+"), and nothing compares the types: two throws fields of the same exception type give two identical cases, thriftgo exits 0 and the generated package does not compile (duplicate case in type switch)")
 	}
